@@ -78,6 +78,8 @@ struct World {
     /// generator's view of the environment: open connections in establishment order
     live: Vec<(u64, u64)>,
     next_conn: u64,
+    /// ForceClose fillers put into a command channel by this op (they are not commands of the service)
+    fillers: BTreeMap<u64, usize>,
     flag: Arc<Flag>,
     waker: Waker,
 }
@@ -98,6 +100,7 @@ impl World {
             pending: BTreeMap::new(),
             live: Vec::new(),
             next_conn: 1,
+            fillers: BTreeMap::new(),
             waker: Waker::from(flag.clone()),
             flag,
         }
@@ -202,6 +205,7 @@ impl World {
         let mut outs: Vec<[u64; 3]> = Vec::new();
         let before = self.flags();
         let mut conn_of_sub = None;
+        self.fillers.clear();
         match op[1] {
             0 => {}
             1 => {
@@ -284,8 +288,10 @@ impl World {
                     .into_iter()
                     .find(|(p, _, _)| *p == peer)
                     .map(|(_, prim, _)| prim.0 as u64);
-                if let Some(env) = prim.and_then(|c| self.conns.get(&c)) {
-                    let _ = env.conn.fill();
+                if let Some((c, env)) = prim.and_then(|c| self.conns.get(&c).map(|e| (c, e))) {
+                    if let Some(n) = env.conn.fill() {
+                        self.fillers.insert(c, n);
+                    }
                 }
                 let svc = &mut self.svc;
                 match catch_unwind(AssertUnwindSafe(|| svc.open_substream(peer))) {
@@ -294,6 +300,30 @@ impl World {
                     Ok(Err(2)) => outs.push([6, 2, 0]),
                     Ok(Err(3)) => outs.push([6, 3, 0]),
                     Ok(Err(_)) => outs.push([6, 4, 0]),
+                    Err(_) => outs.push([8, 0, 0]),
+                }
+            }
+            14 => {
+                // force_close(p); op[3] / op[4]: the secondary's / primary's command channel is full
+                let peer = self.peer(op[2]);
+                let ctx = self.svc.contexts().into_iter().find(|(p, _, _)| *p == peer);
+                if let Some((_, prim, sec)) = ctx {
+                    let mut targets = Vec::new();
+                    if op[4] != 0 {
+                        targets.push(prim.0 as u64);
+                    }
+                    if let (true, Some(s)) = (op[3] != 0, sec) {
+                        targets.push(s.0 as u64);
+                    }
+                    for c in targets {
+                        if let Some(n) = self.conns.get(&c).and_then(|e| e.conn.fill()) {
+                            self.fillers.insert(c, n);
+                        }
+                    }
+                }
+                let svc = &mut self.svc;
+                match catch_unwind(AssertUnwindSafe(|| svc.force_close(peer))) {
+                    Ok(r) => outs.push([12, r as u64, 0]),
                     Err(_) => outs.push([8, 0, 0]),
                 }
             }
@@ -335,6 +365,11 @@ impl World {
         let ids: Vec<u64> = self.conns.keys().copied().collect();
         for c in ids {
             let cmds = self.conns.get_mut(&c).unwrap().conn.drain();
+            // ForceClose commands of the service = those beyond this op's fillers
+            let forces = cmds.iter().filter(|x| x.is_none()).count();
+            for _ in self.fillers.get(&c).copied().unwrap_or(0)..forces {
+                outs.push([11, c, 0]);
+            }
             for cmd in cmds.into_iter().flatten() {
                 outs.push([7, c, wid(cmd.substream_id as u64)]);
                 // only open_substream(p) produces commands, and channels are drained after every op
@@ -361,6 +396,7 @@ fn op_len(tag: u64) -> Option<usize> {
         3 => 3,
         4 => 2,
         5..=13 => 1,
+        14 => 3,
         _ => return None,
     })
 }
@@ -491,6 +527,7 @@ impl Gen {
                         None
                     },
                 94 => Some(vec![dt, 11, r.range(1, 5)]),
+                99 => Some(vec![dt, 14, p, r.chance(20) as u64, r.chance(20) as u64]),
                 95 | 98 =>
                     if !w.conns.is_empty() {
                         // prefer a connection on which a substream is held
@@ -557,9 +594,13 @@ async fn exec(ka: bool, t_ms: u64, n0: u64, mut src: Src<'_>) -> (Vec<u64>, Vec<
             }
         }
         case_ops.extend(&op);
-        // non-downgrade outputs in emission order, then downgrades (already sorted)
+        // non-downgrade outputs in emission order, then ForceClose commands (by channel), then
+        // downgrades (already sorted)
         trace.push(outs.len() as u64);
-        for o in outs.iter().filter(|o| o[0] != 10) {
+        for o in outs.iter().filter(|o| o[0] != 10 && o[0] != 11) {
+            trace.extend(o);
+        }
+        for o in outs.iter().filter(|o| o[0] == 11) {
             trace.extend(o);
         }
         for o in outs.iter().filter(|o| o[0] == 10) {
